@@ -10,7 +10,8 @@ import rung_util as U
 IMPORTS = "From Verif Require Import model.Base model.Rung.\nOpen Scope Q_scope.\n"
 
 PRELUDE = r"""
-Definition tol : Q := 1 # 1000000000.
+(* Boundary class: 8 (n + 1) half-ulps relative to the largest |metric| in a rung of n entries (round-off of Rung.quantile) *)
+Definition tol_of (n : nat) : Q := inject_Z (8 * (Z.of_nat n + 1)) / inject_Z (2 ^ 53).
 Definition Qabs' (x : Q) : Q := if Qle_bool 0 x then x else - x.
 Definition max_abs (l : list entry) : Q :=
   fold_left (fun acc e => if Qle_bool acc (Qabs' (e_metric e)) then Qabs' (e_metric e) else acc) l 0.
@@ -26,7 +27,7 @@ Definition chk_quant (c : quant_case) : bool :=
   list_eqb Z.eqb (map e_trial data) order &&
   match rung_quantile md pq data, impl with
   | QNone, None => true
-  | QVal v, Some w => Qle_bool (Qabs' (v - w)) (tol * max_abs data)
+  | QVal v, Some w => Qle_bool (Qabs' (v - w)) (tol_of (length data) * max_abs data)
   | _, _ => false
   end.
 
@@ -64,7 +65,7 @@ Definition is_boundary (cfg : config) (st : state) (t r : Z) (m : Q) : bool :=
             Z.eqb (r_level rg) r && negb (rung_contains t rg) &&
             let rg' := rung_add (c_mode cfg) rg t m in
             match rung_quantile (c_mode cfg) (r_quant rg') (r_data rg') with
-            | QVal c => Qle_bool (Qabs' (m - c)) (tol * max_abs (r_data rg'))
+            | QVal c => Qle_bool (Qabs' (m - c)) (tol_of (length (r_data rg')) * max_abs (r_data rg'))
             | _ => false
             end) (milestone_rungs (skip_of cfg b) (rs_rungs sys))
       end
@@ -126,10 +127,14 @@ Definition chk_seq (c : seq_case) : bool :=
 # ------------------------------------------------------------------------------------------------
 def gen_quant_case(rng):
     n = rng.choice([0, 1, 2, 3, 4, 5, 7, 10, rng.randint(0, 60), rng.randint(0, 60)])
-    style = rng.choice(["grid", "float", "dupes", "signed"])
+    style = rng.choice(["grid", "float", "dupes", "signed", "tiny", "neartie"])
     vals = []
     for _ in range(n):
-        if style == "grid":
+        if style == "tiny":
+            vals.append(rng.uniform(0.1, 1.0) * 1e-9 * rng.choice([1, 1, -1]))
+        elif style == "neartie":
+            vals.append(0.9123 * (1 + rng.randint(-9, 9) * 1e-6))
+        elif style == "grid":
             vals.append(float(rng.randint(0, 5)))
         elif style == "float":
             vals.append(rng.uniform(0, 1))
@@ -170,7 +175,7 @@ def run_quant_cases(ctx, cases_in):
         else:
             want = float(np.quantile(np.array(c["vals"]), pq if c["mode"] == "min" else 1 - pq))
             scale = max(abs(v) for v in c["vals"])
-            if impl_q is None or not U.rel_close(impl_q, want, scale):
+            if impl_q is None or not U.rel_close(impl_q, want, scale, n):
                 bad = "Rung.quantile = %r, numpy.quantile = %r" % (impl_q, want)
         sign = 1 if c["mode"] == "min" else -1
         keys = [sign * c["vals"][i] for i in order]
@@ -204,7 +209,7 @@ def gen_seq_spec(rng):
         spec["num_threshold_candidates"] = rng.choice([0, 1, 2, 3])
     conc = rng.randint(2, 8)
     total = rng.randint(conc, 26)
-    metric_style = rng.choice(["grid", "float", "float", "trend"])
+    metric_style = rng.choice(["grid", "float", "float", "trend", "tiny", "neartie", "neartie"])
     ops = []  # abstract script, made concrete while running (depends on decisions)
     spec.update(concurrent=conc, total=total, metric_style=metric_style, steps=rng.randint(20, 160),
                 script_seed=rng.randint(0, 10 ** 9))
@@ -212,6 +217,10 @@ def gen_seq_spec(rng):
 
 
 def metric_value(rng, style, t, r):
+    if style == "tiny":      # losses of magnitude 1e-9: differences far above round-off, far below any absolute tolerance
+        return rng.uniform(0.1, 1.0) * 1e-9
+    if style == "neartie":   # values agreeing to ~5 significant digits (relative differences 1e-6 .. 1e-5), some exact ties
+        return 0.9123 * (1 + rng.randint(-9, 9) * 1e-6)
     if style == "grid":
         return float(rng.randint(0, 6))
     if style == "trend":
@@ -272,7 +281,7 @@ def run_sequence(ctx, spec, events=None):
                 n_nontrivial += 1
                 qq = quant[r] if mode == "min" else 1 - quant[r]
                 cutoff = float(np.quantile(vals, qq))
-                boundary = U.rel_close(m, cutoff, float(np.max(np.abs(vals))))
+                boundary = U.rel_close(m, cutoff, float(np.max(np.abs(vals))), len(ent))
                 base = (m <= cutoff) if mode == "min" else (m >= cutoff)
             if boundary:
                 n_boundary += 1
@@ -655,7 +664,7 @@ def run(ctx, replay=None):
         terms.append(seq_term(spec, res))
         meta.append(case)
     if terms:
-        ctx.notes.append("decisions at a rung with >= 2 entries: %d, of which Boundary (|metric - cutoff| <= 1e-9 * scale; "
+        ctx.notes.append("decisions at a rung with >= 2 entries: %d, of which Boundary (|metric - cutoff| <= 8 (n+1) half-ulps * scale, n = rung size; "
                          "either answer accepted): %d" % (tot_dec, tot_boundary))
         m0 = meta[0]
         ctx.sample(dict(kind="sequence", spec=m0["spec"], first_events=m0["events"][:12]))
